@@ -77,7 +77,8 @@ impl VxDisplay for VxVersionParseError {
 pub uninterp spec fn version_parse_spec(s: Seq<char>) -> Option<debversion::Version>;
 impl VxFromStr for debversion::Version {
     type VxErr = VxVersionParseError;
-    open spec fn parse_spec(s: Seq<char>) -> Option<debversion::Version> { version_parse_spec(s) }
+    open spec fn parse_rel(s: Seq<char>, v: debversion::Version) -> bool { version_parse_spec(s) == Some(v) }
+    open spec fn parse_err(s: Seq<char>) -> bool { version_parse_spec(s) is None }
     #[verifier::external_body]
     fn vx_from_str(s: &str) -> (r: Result<debversion::Version, VxVersionParseError>) { unimplemented!() }
 }
